@@ -103,6 +103,17 @@ func OpRepresentable(op AOp, now int64) bool {
 	return true
 }
 
+// NaNVal stands for "not a number" in an operation's value list (operations are stored as JSON, which has no NaN).
+const NaNVal = -7.25e300
+
+// OpVal translates an operation's value into the value handed to the library and to the model.
+func OpVal(v float64) float64 {
+	if v == NaNVal {
+		return math.NaN()
+	}
+	return v
+}
+
 // ApplyReal performs one transition with the real library.
 func ApplyReal(dir string, cfg ACfg, st AState, op AOp) (obs AObs) {
 	vrt.SetPagesize(cfg.Page)
@@ -122,16 +133,16 @@ func ApplyReal(dir string, cfg ACfg, st AState, op AOp) (obs AObs) {
 		var err error
 		switch op.Kind {
 		case "W1":
-			err = db.UpdatePointForArchive(op.Arch, wt.Timestamp(now-op.Ages[0]), wt.Value(op.Vals[0]), wt.Timestamp(now))
+			err = db.UpdatePointForArchive(op.Arch, wt.Timestamp(now-op.Ages[0]), wt.Value(OpVal(op.Vals[0])), wt.Timestamp(now))
 		case "W1G":
 			wt.Now = vrt.Now
 			vrt.SetNow(now)
-			err = db.Update(wt.Timestamp(now-op.Ages[0]), wt.Value(op.Vals[0]))
+			err = db.Update(wt.Timestamp(now-op.Ages[0]), wt.Value(OpVal(op.Vals[0])))
 			vrt.SetNow(0)
 		case "WB", "WBG":
 			pts := make([]wt.Point, len(op.Ages))
 			for i := range pts {
-				pts[i] = wt.Point{Time: wt.Timestamp(now - op.Ages[i]), Value: wt.Value(op.Vals[i])}
+				pts[i] = wt.Point{Time: wt.Timestamp(now - op.Ages[i]), Value: wt.Value(OpVal(op.Vals[i]))}
 			}
 			if op.Kind == "WB" {
 				err = db.UpdatePointsForArchive(pts, op.Arch, wt.Timestamp(now))
@@ -175,11 +186,11 @@ func ApplyModel(l wsp.Layout, pre []wsp.Ring, now int64, op AOp) AExp {
 		if !model.SingleAccepted(l.Archs, t, now) {
 			return AExp{Reject: true, Rings: rings, Trace: tr}
 		}
-		model.WriteSingle(l, rings, op.Arch, t, op.Vals[0], now, tr)
+		model.WriteSingle(l, rings, op.Arch, t, OpVal(op.Vals[0]), now, tr)
 	case "WB", "WBG":
 		pts := make([]model.Pt, len(op.Ages))
 		for i := range pts {
-			pts[i] = model.Pt{T: now - op.Ages[i], V: op.Vals[i]}
+			pts[i] = model.Pt{T: now - op.Ages[i], V: OpVal(op.Vals[i])}
 		}
 		model.WriteBatch(l, rings, pts, op.Arch, now, tr)
 	}
